@@ -508,6 +508,61 @@ def _uncalled_anywhere(mod, h):
     return True
 
 
+def unalias_callables(fd):
+    """`wait = self._breaker.wait` ... `wait(x)`: a local bound exactly once, to an attribute chain (no call, no subscript), that
+    is only ever CALLED afterwards stands for that attribute chain - call sites are rewritten to the chain (in place) and the
+    binding statement is dropped.  (The attribute lookup happens once instead of at every call: the same callable as long as
+    nothing rebinds an attribute of the chain; rules that care check that separately.)  -> list of unaliased names"""
+    import ast as _ast
+    import copy as _copy
+    binds = {}
+    for n in _ast.walk(fd):
+        if isinstance(n, _ast.Assign) and len(n.targets) == 1 and isinstance(n.targets[0], _ast.Name):
+            binds.setdefault(n.targets[0].id, []).append(n)
+        elif isinstance(n, (_ast.AugAssign, _ast.AnnAssign)) and isinstance(n.target, _ast.Name):
+            binds.setdefault(n.target.id, []).append(None)
+        elif isinstance(n, (_ast.For, _ast.comprehension)) :
+            for t in _ast.walk(n.target):
+                if isinstance(t, _ast.Name):
+                    binds.setdefault(t.id, []).append(None)
+
+    def chain(e):
+        while isinstance(e, _ast.Attribute):
+            e = e.value
+        return isinstance(e, _ast.Name)
+    out = []
+    for name, bs in binds.items():
+        if len(bs) != 1 or bs[0] is None or not isinstance(bs[0].value, _ast.Attribute) or not chain(bs[0].value):
+            continue
+        if name in [a.arg for a in fd.args.args]:
+            continue
+        uses = [n for n in _ast.walk(fd) if isinstance(n, _ast.Name) and n.id == name and isinstance(n.ctx, _ast.Load)]
+        called = {id(c.func) for c in _ast.walk(fd) if isinstance(c, _ast.Call)}
+        if not uses or not all(id(u) in called for u in uses):
+            continue
+        val = bs[0].value
+
+        class Rw(_ast.NodeTransformer):
+            def visit_Call(self_, node):
+                self_.generic_visit(node)
+                if isinstance(node.func, _ast.Name) and node.func.id == name:
+                    node.func = _ast.copy_location(_copy.deepcopy(val), node.func)
+                return node
+
+            def visit_Assign(self_, node):
+                if node is bs[0]:
+                    return _ast.copy_location(_ast.Pass(), node)
+                self_.generic_visit(node)
+                return node
+        Rw().visit(fd)
+        _ast.fix_missing_locations(fd)
+        for x in _ast.walk(fd):
+            for ch in _ast.iter_child_nodes(x):
+                ch._parent = x
+        out.append(name)
+    return out
+
+
 def canon_name(e):
     import ast as _ast
     try:
